@@ -385,6 +385,30 @@ theorem failure_is_not_completion :
       ["/p/files/a.txt".toList]) := by
   constructor <;> decide
 
+/-! ### content -/
+
+/-- **content_preserved_until_done.**  The model's entries carry the content of
+the file (`DiskEnt.hash`), and no event of the language writes: as long as
+consumer `n` has not completed, every entry its argument references is still
+there WITH ITS CONTENT (the very same entry); likewise for what the top level
+or a retain holds (`h = none`), for ever.  (A stage job writing into its files
+after the fork completed is outside the event language — Martian's contract;
+at run time the content of the survivors is compared through the replay's
+`kepthash` and by the monitors.) -/
+theorem content_preserved_until_done (c : Cfg) (s0 : St) (evs : List Ev) (ok : CfgOK c s0) (fr : Fresh s0)
+    (hv : c.volatile = true) (a : Arg) (h : Holder) (hh : Holds s0 a h)
+    (hn : ∀ n, h = some n → n ∉ (run c s0 evs).doneNodes) :
+    (∀ d ∈ s0.disk, isTmp d.kind = false → refs c a d.path = true →
+      ∃ d' ∈ (run c s0 evs).disk, d'.path = d.path ∧ d'.hash = d.hash ∧ d'.size = d.size) ∧
+    (∀ d' ∈ (run c s0 evs).disk, ∃ d ∈ s0.disk, d' = d) := by
+  refine ⟨?_, fun d' hd' => ⟨d', (shr_run c s0 evs).disk d' hd', rfl⟩⟩
+  intro d hd ht hr
+  have i := (Inv.init c s0 fr).run ok hv evs
+  rcases i.split d hd with h1 | h1
+  · exact ⟨d, h1, rfl, rfl, rfl⟩
+  · obtain ⟨m, e, hm⟩ := i.safe d h1 ht a h hh hr
+    exact absurd hm (hn m e)
+
 /-! ### the whole pipestance -/
 
 /-- **kill_safe_pipestance.**  All producer forks of a pipestance side by
@@ -488,8 +512,8 @@ example :
                       argNames := [("xs", ["/p/f/x0".toList]), ("bag.f", ["/p/f/b".toList]), ("keep", ["/p/f/k".toList])]
                       argFiles := [("xs", ["/p/f/x0".toList]), ("bag.f", ["/p/f/b".toList]), ("keep", ["/p/f/k".toList])]
                       initArgs := t.fileArgs, initPost := t.postNodes }
-     let s := t.st [⟨"/p/f/x0".toList, 1, .out, []⟩, ⟨"/p/f/b".toList, 2, .out, []⟩, ⟨"/p/f/k".toList, 3, .out, []⟩,
-                    ⟨"/p/f/junk".toList, 4, .out, []⟩]
+     let s := t.st [⟨"/p/f/x0".toList, 1, .out, [], 0⟩, ⟨"/p/f/b".toList, 2, .out, [], 0⟩, ⟨"/p/f/k".toList, 3, .out, [], 0⟩,
+                    ⟨"/p/f/junk".toList, 4, .out, [], 0⟩]
      (run c s [.removeEmpty, .cacheMap, .kill, .nodeDone "C1", .restart, .kill]).disk.map (·.path) =
        ["/p/f/b".toList, "/p/f/k".toList] ∧
      (run c s [.removeEmpty, .cacheMap, .kill, .nodeDone "C1", .restart, .kill, .nodeDone "C2", .kill]).disk.map (·.path) =
@@ -560,8 +584,8 @@ example :
                      argFiles := [("d", ["/p/files/outdir/".toList, "/p/files/outdir".toList])]
                      initArgs := [("d", [some "C"])], initPost := [("C", ["d"])] }
     let s : St := { fileArgs := [("d", [some "C"])], postNodes := [("C", ["d"])],
-                    disk := [⟨"/p/files/outdir".toList, 4096, .out, []⟩, ⟨"/p/files/outdir/x".toList, 1, .out, []⟩,
-                             ⟨"/p/files/junk".toList, 2, .out, []⟩] }
+                    disk := [⟨"/p/files/outdir".toList, 4096, .out, [], 0⟩, ⟨"/p/files/outdir/x".toList, 1, .out, [], 0⟩,
+                             ⟨"/p/files/junk".toList, 2, .out, [], 0⟩] }
     cfgOKB c s = true ∧
     (run c s [.removeEmpty, .cacheMap, .kill]).disk.map (·.path) = ["/p/files/outdir".toList, "/p/files/outdir/x".toList] := by
   decide
